@@ -9,7 +9,7 @@ from ..runner import Outcome, Part
 
 ID = "C04"
 TITLE = "The selected axial step keeps the explicit march positive"
-TECHNIQUE = "property-based testing (Hypothesis): linear probing of the real composed step operator at the reactor-chosen dz (unit perturbations in, operator out), plus maximum-principle checks on generated sweeps"
+TECHNIQUE = "property-based testing (Hypothesis): linear probing of the real composed step operator at the reactor-chosen dz (unit perturbations in, operator out), for single assemblies (with user step requests above and below the limit) and for every assembly of generated cores (twins), plus maximum-principle checks on generated sweeps"
 RULE = ("region_operator: generated single assemblies (constant-property coolant and duct so the step is linear), "
         "the composed region.calculate() step is probed column by column at the step the Reactor chose, for the "
         "first region and every region activated later; gap_operator: Core.calculate_gap_temperatures probed the "
